@@ -17,53 +17,5 @@ broadcast use {f64ax::group_f64_axioms};
 
 //@ include cent_fns.rs
 
-// ---- C06 ----
-// R-ext: `shortest_paths.iter().map(|(_, sp)| sp).sum::<f64>()` (tuple-pattern closure + Iterator::sum are outside Verus):
-// ASSUMED (A5) to return the fold of f64 `+` over the second components; the only fact used is that the sum of an empty list
-// is not greater than 0.0 (std starts the fold from a zero: 0.0 or -0.0 depending on the toolchain)
-pub uninterp spec fn fsum_snd(s: Seq<(usize, f64)>) -> f64;
-pub broadcast axiom fn axiom_fsum_snd_empty(s: Seq<(usize, f64)>)
-    ensures s.len() == 0 ==> !flt(0.0f64, #[trigger] fsum_snd(s));
-#[verifier::external_body]
-pub fn vsum_snd(v: &Vec<(usize, f64)>) -> (r: f64)
-    ensures r == fsum_snd(v@)
-{ v.iter().map(|(_, sp)| sp).sum::<f64>() }
-
-//@ extract fn src/algorithms/centrality/closeness.rs get_node_centrality props=C06,C20
-//@ rewrite
-) -> f64
-//@ with
-) -> (r: f64)
-//@ rewrite
-shortest_paths.iter().map(|(_, sp)| sp).sum::<f64>()
-//@ with
-vsum_snd(shortest_paths)
-//@ rewrite
-(shortest_paths.len() - 1) as f64
-//@ with
-vcast_usize_f64(shortest_paths.len() - 1)
-//@ rewrite
-(num_nodes - 1) as f64
-//@ with
-vcast_usize_f64(num_nodes - 1)
-//@ rewrite
-cc *= s;
-//@ with
-cc = cc * s;
-//@ spec
-    ensures
-        // [C06.centrality.formula]
-        flt(0.0f64, fsum_snd(shortest_paths@)) && num_nodes > 1 ==> shortest_paths@.len() >= 1 && ({
-            let s = usize_to_f64((shortest_paths@.len() - 1) as usize);
-            let cc = fdiv(s, fsum_snd(shortest_paths@));
-            &&& wf_improved ==> r == fmul(cc, fdiv(s, usize_to_f64((num_nodes - 1) as usize)))
-            &&& !wf_improved ==> r == cc
-        }),
-        // [C06.centrality.zero_when_nothing_reaches]
-        !(flt(0.0f64, fsum_snd(shortest_paths@)) && num_nodes > 1) ==> r == 0.0f64,
-//@ body
-    broadcast use axiom_fsum_snd_empty;
-//@ end
-
 } // verus!
 fn main() {}
